@@ -23,12 +23,18 @@ def _mk():
     return [TreeBanditOracle("C06")]
 
 
+def _mkq():
+    from ..world import QueryAfterRound
+
+    return [QueryAfterRound(), TreeBanditOracle("C06")]
+
+
 def run_task(task):
-    return run_algo_task(task, _mk, nontrivial=c05._nontrivial)
+    return run_algo_task(task, _mkq if task.get("query") else _mk, nontrivial=c05._nontrivial)
 
 
 def replay(task, script):
-    return replay_algo(task, script, _mk)
+    return replay_algo(task, script, _mkq if task.get("query") else _mk)
 
 
 bounds = c05.bounds
